@@ -14,8 +14,9 @@ Strings are lists of code points (`Nat`), byte strings lists of `Nat < 256`.
   part) — the literals and `safe` arguments are the constants of `Extracted/Uri.lean`.
 * `urlsplit`/`urlparse` restricted to what `_parseURI` reads, and `_parseURI` itself (posix branch).
 
-Not modelled: bracketed hosts (`ipaddress.ip_address` validation of `[..]`; the parser answers
-`unmodelled`, the harness counts and skips those comparisons), and for non-ASCII netlocs the NFKC
+Bracketed hosts: `_check_bracketed_host` is modelled (`ipaddress.ip_address` accepting an IPv6
+literal with optional scope id / IPv4 suffix, and the IPvFuture regex).
+Not modelled: for non-ASCII netlocs the NFKC
 check of `_checknetloc` and the Unicode part of `str.lower()` (the model lower-cases ASCII only; the
 harness compares such cases only when the real `lower()`/NFKC are the identity on the netloc).
 -/
@@ -231,14 +232,26 @@ def authOf (c : Conn) : AuthOut :=
     | some _ => .assertionError
     | none => .ok []
 
+/-- `t in h` for a one-character `t` -/
+def hasChar (t h : Str) : Bool :=
+  match t with
+  | [c] => h.contains c
+  | _ => false
+
 open Extracted in
-/-- `if self.host: uri += self.host; if self.port: uri += ':%d' % self.port` -/
+/-- `'[%s]' % host if ':' in host and not host.startswith('[') else host` -/
+def hostText (h : Str) : Str :=
+  if hasChar hostBracketTest h && !startsWith hostBracketSkip h then hostBracketOpen ++ h ++ hostBracketClose
+  else h
+
+open Extracted in
+/-- `if self.host: uri += <host text>; if self.port: uri += ':%d' % self.port` -/
 def hostportOf (c : Conn) : Str :=
   match truthyS c.host with
   | some h =>
     match truthyI c.port with
-    | some p => h ++ portSep ++ fmtD p
-    | none => h
+    | some p => hostText h ++ portSep ++ fmtD p
+    | none => hostText h
   | none => []
 
 open Extracted in
@@ -319,6 +332,78 @@ def splitParamsPath (url : Str) : Str :=
     | some (h, _) => h
     | none => url
 
+/-! ### `_check_bracketed_host`: `ipaddress.ip_address` accepts an IPv6 literal / IPvFuture regex -/
+
+def isHexDigit (c : Nat) : Bool := (48 ≤ c && c ≤ 57) || (65 ≤ c && c ≤ 70) || (97 ≤ c && c ≤ 102)
+
+/-- `s.split(sep)` -/
+def splitOn (sep : Nat) : Str → List Str
+  | [] => [[]]
+  | c :: cs =>
+    match splitOn sep cs with
+    | [] => [[c]]     -- unreachable
+    | h :: t => if c = sep then [] :: h :: t else (c :: h) :: t
+
+/-- `IPv6Address._parse_hextet` succeeds -/
+def hextetOk (s : Str) : Bool := !s.isEmpty && s.length ≤ 4 && s.all isHexDigit
+
+/-- `IPv4Address._parse_octet` succeeds -/
+def octetOk (s : Str) : Bool :=
+  !s.isEmpty && s.all isDigit && s.length ≤ 3 && (s == [48] || s.head? != some 48) && parseDec s ≤ 255
+
+/-- `IPv4Address(s)` succeeds -/
+def ipv4Ok (s : Str) : Bool :=
+  let os := splitOn 46 s
+  os.length == 4 && os.all octetOk
+
+/-- positions (from `i`) of the empty strings of a list -/
+def emptyIdx : List Str → Nat → List Nat
+  | [], _ => []
+  | p :: ps, i => if p.isEmpty then i :: emptyIdx ps (i + 1) else emptyIdx ps (i + 1)
+
+/-- `IPv6Address._ip_int_from_string(s)` succeeds -/
+def ipv6Core (s : Str) : Bool :=
+  if s.isEmpty then false else
+  let parts0 := splitOn 58 s
+  if parts0.length < 3 then false else
+  let last := parts0.getLastD []
+  let v4 := last.contains 46
+  if v4 && !ipv4Ok last then false else
+  let parts := if v4 then parts0.dropLast ++ [[48], [48]] else parts0
+  let n := parts.length
+  if n > 9 then false else
+  match emptyIdx ((parts.drop 1).dropLast) 1 with
+  | [] => n == 8 && parts.all hextetOk
+  | [i] =>
+    let firstEmpty := (parts.headD []).isEmpty
+    let lastEmpty := (parts.getLastD []).isEmpty
+    let hiOk := if firstEmpty then i == 1 else (parts.take i).all hextetOk
+    let loOk := if lastEmpty then i + 2 == n else (parts.drop (i + 1)).all hextetOk
+    let hi := if firstEmpty then 0 else i
+    let lo := if lastEmpty then 0 else n - i - 1
+    hiOk && loOk && hi + lo ≤ 7
+  | _ => false
+
+/-- `IPv6Address(s)` succeeds (scope id after `%`) -/
+def ipv6Ok (s : Str) : Bool :=
+  match breakOn 37 s with
+  | none => ipv6Core s
+  | some (a, z) => !z.isEmpty && !z.contains 37 && ipv6Core a
+
+/-- `re.match(r"\Av[a-fA-F0-9]+\..+\Z", s)` for `s` starting with `v` -/
+def ipvFutureOk (s : Str) : Bool :=
+  match s with
+  | _ :: rest =>
+    let (hex, after) := breakP (fun c => !isHexDigit c) rest
+    !hex.isEmpty && (match after with
+      | 46 :: r => !r.isEmpty
+      | _ => false)
+  | [] => false
+
+/-- `_check_bracketed_host(s)` does not raise -/
+def bracketedHostOk (s : Str) : Bool :=
+  if startsWith [118] s then ipvFutureOk s else ipv6Ok s
+
 structure Split where
   scheme : Str
   netloc : Str
@@ -330,6 +415,15 @@ inductive SplitOut
   | valueError
   | unmodelled
 
+/-- `netloc.partition('[')[2].partition(']')[0]` -/
+def bracketed (netloc : Str) : Str :=
+  match breakOn 91 netloc with
+  | some (_, b) =>
+    match breakOn 93 b with
+    | some (h, _) => h
+    | none => b
+  | none => []
+
 /-- `urlparse(url)`: scheme, netloc, path (without `;params`), query -/
 def urlparse (url0 : Str) : SplitOut :=
   let url := removeTRN (lstripC0 url0)
@@ -339,7 +433,7 @@ def urlparse (url0 : Str) : SplitOut :=
   let hasO := netloc.contains 91
   let hasC := netloc.contains 93
   if hasO != hasC then .valueError
-  else if hasO then .unmodelled         -- `_check_bracketed_host`
+  else if hasO && !bracketedHostOk (bracketed netloc) then .valueError
   else
     let url := match breakOn 35 url with
       | some (u, _) => u
@@ -367,11 +461,20 @@ def hostpart (netloc : Str) : Str :=
   | some (_, h) => h
   | none => netloc
 
-/-- `_hostinfo` for a netloc without brackets: (hostname, port text) -/
+/-- `_hostinfo`: (hostname, port text) -/
 def hostinfo (netloc : Str) : Str × Option Str :=
-  match breakOn 58 (hostpart netloc) with
-  | some (h, p) => (h, if p.isEmpty then none else some p)
-  | none => (hostpart netloc, none)
+  match breakOn 91 (hostpart netloc) with
+  | some (_, b) =>
+    let (h, rest) := match breakOn 93 b with
+      | some (h, rest) => (h, rest)
+      | none => (b, [])
+    match breakOn 58 rest with
+    | some (_, p) => (h, if p.isEmpty then none else some p)
+    | none => (h, none)
+  | none =>
+    match breakOn 58 (hostpart netloc) with
+    | some (h, p) => (h, if p.isEmpty then none else some p)
+    | none => (hostpart netloc, none)
 
 /-- lower-casing in `.hostname`: everything before the first `%` (IPv6 zone separator) -/
 def lowerHost (h : Str) : Str :=
@@ -397,14 +500,6 @@ def portOf (netloc : Str) : Option (Option Nat) := portOfText (hostinfo netloc).
 
 /-- `replace('+', ' ')` -/
 def plusToSpace (s : Str) : Str := s.map fun c => if c = 43 then 32 else c
-
-/-- `s.split(sep)` -/
-def splitOn (sep : Nat) : Str → List Str
-  | [] => [[]]
-  | c :: cs =>
-    match splitOn sep cs with
-    | [] => [[c]]     -- unreachable
-    | h :: t => if c = sep then [] :: h :: t else (c :: h) :: t
 
 /-- `parse_qsl(query)` with the defaults -/
 def parseQsl (q : Str) : List (Str × Str) :=
